@@ -77,6 +77,11 @@ type MemStore struct {
 	// stream reporting a deferred transport error); 0 = never.
 	CloseErrEvery int64
 	closeCount    atomic.Int64
+	// OpenWaitsForCtx: OpenFile blocks until the context it was given is done (a remote store interrupted only
+	// through its context) or OpenRelease is closed, then fails
+	OpenWaitsForCtx atomic.Bool
+	OpenRelease     chan struct{}
+	OpensWaiting    atomic.Int64
 	// ShortReads: every Read returns at most this many bytes (0 = as many as asked): io.Reader allows it
 	ShortReads int
 }
@@ -272,6 +277,16 @@ type memReader struct {
 
 func (s *MemStore) OpenFile(ctx context.Context, ptr []byte) (io.ReadSeekCloser, error) {
 	name := string(ptr)
+	if s.OpenWaitsForCtx.Load() {
+		s.OpensWaiting.Add(1)
+		defer s.OpensWaiting.Add(-1)
+		select {
+		case <-ctx.Done():
+			return nil, ctx.Err()
+		case <-s.OpenRelease:
+			return nil, errors.New("store gave up")
+		}
+	}
 	if d := s.OpenDelay; d > 0 {
 		cur := s.readsInFlight.Add(1)
 		for {
